@@ -350,6 +350,11 @@ func (c *Ctx) c01Sibling(fo *FO) {
 					r.Bad("R01.2", cons, "split-election", c.Pos(ev.Pos), d, t)
 				}
 			}
+			// the inserted entry is a fresh key lock with its own channel (waiters block on it, the release closes it)
+			if iv := pointee(cl.insert.Value); iv == nil || iv.Kind != pw.KAlloc || iv.Fields["lock"] == nil || iv.Fields["lock"].Kind != pw.KAlloc {
+				d, t := c.pathDetail(fo, p, "the entry inserted into keyLocks is not a freshly built key lock with a freshly made channel")
+				r.Bad("R01.2", cons, "insert-not-fresh-entry", c.Pos(cl.insert.Pos), d, t)
+			}
 			if !stringOfContent(p.Events, cl.insert.Key, fo.Key) {
 				d, t := c.pathDetail(fo, p, "keyLocks insert is not keyed by string(key)")
 				r.Bad("R01.2", cons, "insert-key", c.Pos(cl.insert.Pos), d, t)
